@@ -1,6 +1,7 @@
 package rules
 
 import (
+	"go/types"
 	"sort"
 	"strings"
 
@@ -128,7 +129,11 @@ func c16atomic(c *Ctx, fn *ssa.Function, touch *Touch, evictCounters map[string]
 			}
 		}
 		if ok {
-			r.OK("ATOMIC", key, c.Pos(fn.Pos()), "cap check and increment are inside one critical section of "+k)
+			if why := perCallMutex(c, fn, k, touch, evictCounters); why != "" {
+				r.Fail("ATOMIC", key, c.Pos(fn.Pos()), "the mutex "+k+" that brackets the cap check and the increment "+why+": concurrent callers lock different mutexes, so the check-then-count is not atomic")
+				return
+			}
+			r.OK("ATOMIC", key, c.Pos(fn.Pos()), "cap check and increment are inside one critical section of "+k+", a mutex shared by all callers")
 			return
 		}
 	}
@@ -342,6 +347,79 @@ func c16arbitrator(c *Ctx) {
 		r.Check(ok, "PATH", fkey(fn)+"/mark-after-persist", pos, "marked passed only after the API update succeeded", "the job is marked as passed without (or before) a successful API update")
 	}
 
+	// per-job pairing of phase and arbitration requirement
+	r.Rule("PATH: in forEachAvailableMigrationJobs the phase and the checkArbitration flag are read from the same phase context element, inside the loop over the jobs (per job: a Running job always counts, a Pending job counts only if it passed arbitration); checkJobPassedArbitration is consulted only under that element's flag")
+	if fn := c.Fn(arbitratorPkg, "filter", "forEachAvailableMigrationJobs"); fn != nil {
+		var handlerCall ssa.CallInstruction
+		for _, cl := range an.Calls(fn, false) {
+			if cl.Common().StaticCallee() == nil && !cl.Common().IsInvoke() {
+				if p, ok := cl.Common().Value.(*ssa.Parameter); ok && p.Name() == "handler" {
+					handlerCall = cl
+				}
+			}
+		}
+		key := fkey(fn) + "/phase-flag-pairing"
+		if handlerCall == nil {
+			r.Unknown("PATH", key, c.Pos(fn.Pos()), "handler call not found")
+		} else {
+			jobsHdr := an.InnermostLoopHeader(handlerCall.Block())
+			bases := map[string]map[string]bool{}
+			inLoop := true
+			for _, b := range fn.Blocks {
+				for _, in := range b.Instrs {
+					fa, ok := in.(*ssa.FieldAddr)
+					if !ok {
+						continue
+					}
+					owner, f, base, ok := an.FieldOf(fa)
+					if !ok || !strings.HasSuffix(owner, ".phaseContext") || (f != "phase" && f != "checkArbitration") {
+						continue
+					}
+					// only reads
+					isRead := false
+					for _, ref := range *fa.Referrers() {
+						if u, ok := ref.(*ssa.UnOp); ok && u.X == ssa.Value(fa) {
+							isRead = true
+						}
+					}
+					if !isRead {
+						continue
+					}
+					k := an.Path(base)
+					if bases[k] == nil {
+						bases[k] = map[string]bool{}
+					}
+					bases[k][f] = true
+					if jobsHdr == nil || !(jobsHdr.Dominates(b) && an.ForwardReachBlocks(b)[jobsHdr]) {
+						inLoop = false
+					}
+				}
+			}
+			paired := false
+			for _, fs := range bases {
+				if fs["phase"] && fs["checkArbitration"] {
+					paired = true
+				}
+			}
+			var chk ssa.CallInstruction
+			for _, cl := range an.Calls(fn, false) {
+				if an.ShortCallee(cl.Common()) == "checkJobPassedArbitration" {
+					chk = cl
+				}
+			}
+			guarded := false
+			if chk != nil {
+				for _, g := range an.Guards(chk) {
+					if strings.HasSuffix(an.Path(g.Cond), ".checkArbitration") && g.Truth {
+						guarded = true
+					}
+				}
+			}
+			r.Check(paired && inLoop && guarded, "PATH", key, c.InstrPos(handlerCall), "phase and arbitration requirement are paired per context, per job",
+				sprintf("the pairing of phase and checkArbitration is lost (read from one element: %v, evaluated per job: %v, arbitration consulted only under the element's flag: %v): e.g. Running jobs are only counted if they are in the in-memory passed set, which is empty after a restart", paired, inLoop, guarded))
+		}
+	}
+
 	// SIBLING: phase contexts
 	r.Rule("SIBLING: the four limit filters build, under checkPodArbitrating(pod)==true, the same phase contexts {Running,false},{Pending,true}")
 	vec := map[string]string{}
@@ -417,4 +495,133 @@ func phaseContexts(fn *ssa.Function) string {
 	scan(fn, true, 0)
 	sort.Strings(out)
 	return strings.Join(out, ",")
+}
+
+// atomicSection: every site of fn that reads or writes the fields (directly or through callees) is under one mutex
+// held for writing, which is not released between the first and the last site.
+func atomicSection(c *Ctx, rule string, fn *ssa.Function, touch *Touch, fields map[string]map[string]bool, failMsg string) {
+	r := c.R
+	key := fkey(fn) + "/one-critical-section"
+	reads, writes := touch.Sites(fn, fields)
+	sites := append(append([]ssa.Instruction{}, reads...), writes...)
+	if len(writes) == 0 || len(sites) < 2 {
+		r.Unknown(rule, key, c.Pos(fn.Pos()), sprintf("expected reads and writes of the guarded state in this operation (reads %d, writes %d)", len(reads), len(writes)))
+		return
+	}
+	locks := an.NewAnyLocks()
+	var common map[string]bool
+	for _, s := range sites {
+		cur := map[string]bool{}
+		for k, w := range locks.HeldAt(s) {
+			if w {
+				cur[k] = true
+			}
+		}
+		if common == nil {
+			common = cur
+		} else {
+			for k := range common {
+				if !cur[k] {
+					delete(common, k)
+				}
+			}
+		}
+	}
+	if len(common) == 0 {
+		r.Fail(rule, key, c.Pos(fn.Pos()), failMsg+" (no mutex is write-held at all "+sprintf("%d", len(sites))+" sites)")
+		return
+	}
+	for k := range common {
+		released := false
+		for _, in := range an.Explore(fn, an.After(sites[0]), nil, nil).Instrs() {
+			if locks.IsUnlockOf(in, k) {
+				// an unlock that is followed by another site
+				r2 := an.Explore(fn, an.After(in), nil, nil)
+				for _, s := range sites {
+					if r2.Reached(s) {
+						released = true
+					}
+				}
+			}
+		}
+		if !released {
+			r.OK(rule, key, c.Pos(fn.Pos()), "all "+sprintf("%d", len(sites))+" sites are inside one critical section of "+k)
+			return
+		}
+	}
+	r.Fail(rule, key, c.Pos(fn.Pos()), failMsg+" (the lock is released and re-acquired between sites)")
+}
+
+// perCallMutex explains (non-empty) when the mutex with lock key k used in fn lives in an object that is created
+// afresh per use (allocated in a function that returns it and has two or more call sites outside test-helper
+// packages) and that object is not the owner of the guarded counters.
+func perCallMutex(c *Ctx, fn *ssa.Function, k string, touch *Touch, counters map[string]map[string]bool) string {
+	var owner *types.Named
+	for _, cl := range an.Calls(fn, false) {
+		f := cl.Common().StaticCallee()
+		if f == nil || f.Pkg == nil || f.Pkg.Pkg.Path() != "sync" || len(cl.Common().Args) == 0 {
+			continue
+		}
+		fa, ok := cl.Common().Args[0].(*ssa.FieldAddr)
+		if !ok || an.BaseKey(fa) != k {
+			continue
+		}
+		owner = an.NamedOf(fa.X.Type())
+	}
+	if owner == nil || owner.Obj().Pkg() == nil {
+		return ""
+	}
+	oname := owner.Obj().Pkg().Path() + "." + owner.Obj().Name()
+	if _, isCounterOwner := counters[oname]; isCounterOwner {
+		return ""
+	}
+	// allocation sites of the owner type
+	for _, af := range c.P.AllFuncs() {
+		allocates := false
+		for _, b := range af.Blocks {
+			for _, in := range b.Instrs {
+				if a, ok := in.(*ssa.Alloc); ok && a.Heap {
+					if n := an.NamedOf(a.Type()); n != nil && n.Obj() == owner.Obj() {
+						// returned directly?
+						for _, ref := range *a.Referrers() {
+							switch x := ref.(type) {
+							case *ssa.Return:
+								allocates = true
+							case *ssa.MakeInterface:
+								for _, r2 := range *x.Referrers() {
+									if _, ok := r2.(*ssa.Return); ok {
+										allocates = true
+									}
+								}
+							}
+						}
+					}
+				}
+			}
+		}
+		if !allocates {
+			continue
+		}
+		sites := 0
+		for _, cf := range c.P.AllFuncs() {
+			pk := cf.Pkg
+			for f := cf; pk == nil && f != nil; f = f.Parent() {
+				pk = f.Pkg
+			}
+			if pk != nil && strings.HasSuffix(pk.Pkg.Path(), "/testing") {
+				continue
+			}
+			for _, cl := range an.Calls(cf, false) {
+				for _, callee := range touch.Callees(cl) {
+					if callee == af {
+						sites++
+					}
+				}
+			}
+		}
+		if sites >= 2 {
+			return sprintf("lives in a %s, which is created afresh by %s (%d call sites) for every caller", owner.Obj().Name(), fkey(af), sites)
+		}
+	}
+	return ""
 }
